@@ -17,11 +17,13 @@ LEVEL_TEXT = ("c16_consecutive: for every schema, role, persister, start number 
               "seqnum/no_increment/preset MsgSeqNum) the modelled wire carries start, start+1, ... across single and "
               "batched sends and the control record equals (next_send, next_recv) after every send. c16_restart: the same "
               "with RESTART operations anywhere (new session on the same persister files / a fresh memory persister): "
-              "numbering resumes at the recovered or configured number. c16_unique / "
+              "numbering resumes at the recovered or configured number. c16_control: the control clause at "
+              "full strength for send-side histories (any messages incl. custom seqnum / no_increment / SequenceReset, timer "
+              "ticks with the supervisor's own Logout, no well-formedness hypothesis). c16_unique / "
               "c16_increasing: acceptance by the oracle implies pairwise different, strictly increasing numbers of new "
               "messages. c16_control_inbound_partial: after every normal return of Session::process the control record "
-              "is current. Refuted (witnesses on the faithful model, confirmed on the real code): custom seqnum / "
-              "no_increment / SequenceReset sends (F20), the session's own no_increment Logout, the Reject path of process.")
+              "is current. Refuted: the ORIGINAL send_process (F20, repaired by 8a992cc: c16_control_orig_refuted); still true: "
+              "numbering with a custom sequence number (c16_custom_refuted), the Reject path of process (c16_reject_refuted).")
 LEVEL_NOTE = ("Trusted: Coq kernel; extraction; the hand transcription coq/Sess/*.v (checked by the correspondence run "
               "on whole histories, byte-exact wire/store/control/state traces); harness (vclock/vsock/sess_harness); "
               "simple_decode stands in for Message::factory on well-formed inbound messages. The numbering theorem is "
@@ -156,7 +158,8 @@ def _specs(line):
 
 def c_nonplain_send(case, r, m):
     """negation of hypothesis plain_op of c16_consecutive: a SEND/BATCH with custom seqnum, no_increment, a
-    SequenceReset, or MsgSeqNum / PossDupFlag preset by the application (F20 and its relatives)."""
+    SequenceReset, or MsgSeqNum / PossDupFlag preset by the application (numbering clause; the control clause holds
+    for these since 8a992cc: c16_control)."""
     for sp in _specs(case.line):
         parts = sp.split("/")
         if parts[0] == "4":
